@@ -165,9 +165,25 @@ let ctr_of = function
   | L [A "ne"; t] -> (M.CNe, btm_of t)
   | _ -> failwith "ctr"
 
+(* a field of a nested literal: (k prio body|_ ctr...) or (dyn k prio body|_ ctr...) *)
+let fdef0_of dyn = function
+  | k :: p :: A "_" :: cs -> (mnum k, { M.f0prio = prio_of p; M.f0body = None; M.f0dyn = dyn; M.f0ctrs = List.map ctr_of cs })
+  | k :: p :: b :: cs -> (mnum k, { M.f0prio = prio_of p; M.f0body = Some (btm_of b); M.f0dyn = dyn; M.f0ctrs = List.map ctr_of cs })
+  | _ -> failwith "fdef0"
+
+let ilit_of fs = List.map (function
+  | L (A "dyn" :: rest) -> fdef0_of true rest
+  | L rest -> fdef0_of false rest
+  | _ -> failwith "fdef0") fs
+
+(* the definition of a field of a top-level literal: an expression or (sub <field>...) *)
+let src_of = function
+  | L (A "sub" :: fs) -> M.SSub (ilit_of fs)
+  | t -> M.STm (btm_of t)
+
 let fdef_of dyn = function
   | k :: p :: A "_" :: cs -> (mnum k, { M.fprio = prio_of p; M.fbody = None; M.fdyn = dyn; M.fctrs = List.map ctr_of cs })
-  | k :: p :: b :: cs -> (mnum k, { M.fprio = prio_of p; M.fbody = Some (btm_of b); M.fdyn = dyn; M.fctrs = List.map ctr_of cs })
+  | k :: p :: b :: cs -> (mnum k, { M.fprio = prio_of p; M.fbody = Some (src_of b); M.fdyn = dyn; M.fctrs = List.map ctr_of cs })
   | _ -> failwith "fdef"
 
 let step_of = function
@@ -186,6 +202,9 @@ let show_out = function
   | M.Err M.MissingDef -> "E:MissingDef"
   | M.Err M.NonMergeable -> "E:NonMergeable"
   | M.Err M.Blame -> "E:Blame"
+  | M.Err M.TypeErr -> "E:TypeErr"
+  | M.IsRec -> "REC"
+  | M.Opaque -> "OPAQUE"
   | M.OutOfFuel -> "FUEL"
   | M.Panic -> "PANIC"
 
@@ -199,11 +218,26 @@ let run_hist cfg (x : sx) : string =
   let fuel, x = match x with L (A f :: rest) -> (mnat_of_int (int_of_string f), L rest) | _ -> failwith "hist fuel" in
   let h = match x with L steps -> List.map step_of steps | _ -> failwith "hist" in
   let (st, slots) = M.irun cfg h in
+  (* a record-valued field: read into it (the inner instance / the inner S-record) *)
+  let i_field r (k, o) =
+    match o with
+    | M.IsRec ->
+        (match M.inst cfg fuel st r k with
+         | Some (st', ri) -> (int_of_mn k, show_fields (List.map (fun (p, o) -> (int_of_mn p, show_out o)) (M.ifields fuel st' ri)))
+         | None -> (int_of_mn k, "RECFAIL"))
+    | o -> (int_of_mn k, show_out o) in
   let i_out = List.map (function
-    | M.Rid r -> show_fields (List.map (fun (k, o) -> (int_of_mn k, show_out o)) (M.ifields fuel st r))
+    | M.Rid r -> show_fields (List.map (i_field r) (M.ifields fuel st r))
     | M.BadRef -> "BAD" | M.Panicked -> "PANIC") slots in
+  let s_field rr k =
+    match M.sfield fuel rr k with
+    | M.IsRec ->
+        (match M.sinst fuel rr k with
+         | Some ri -> (int_of_mn k, show_fields (List.map (fun p -> (int_of_mn p, show_out (M.sfield fuel ri p))) (M.skeys ri)))
+         | None -> (int_of_mn k, "RECFAIL"))
+    | o -> (int_of_mn k, show_out o) in
   let s_out = List.map (function
-    | Some r -> show_fields (List.map (fun k -> (int_of_mn k, show_out (M.sfield fuel r k))) (M.skeys r))
+    | Some r -> show_fields (List.map (s_field r) (M.skeys r))
     | None -> "BAD") (M.srun h) in
   String.concat "|" i_out ^ "\t" ^ String.concat "|" s_out
 
